@@ -144,7 +144,10 @@ class ModeRules:
                     rec.ob('R10.f', 'R10.f@%s::factory-%s-%d' % (self.Fq, 'enc' if enc else 'dec', typ), None, where, 'dynamic class of the stream object unknown')
                     continue
                 # constructed feedback register = first 16 bytes of the IV given to the factory
-                ivok = all(st.mem.get((obj[0], obj[1] + (self.ivf, i))) == ('tb', ts.v('iv%d' % i)) for i in range(16))
+                cells0 = [st.mem.get((obj[0], obj[1] + (self.ivf, i))) for i in range(16)]
+                ivok = all(c == ('tb', ts.v('iv%d' % i)) for i, c in enumerate(cells0))
+                if not ivok and any(c is None or c[0] not in ('tb', 'c') for c in cells0):
+                    ivok = None         # the register is not where / what the analysis can read: no verdict
                 rec.ob('R10.i', 'R10.i@%s::initial-register' % cls, ivok, '%s:%s' % (f['file'], f['line']),
                        '%s object starts from the first 16 bytes of the IV handed to the factory' % cls)
                 # one step on a symbolic block
@@ -184,12 +187,14 @@ class ModeRules:
                     continue
                 ok = True
                 det = ''
+                lost = False        # a result that is not a term at all: the analysis lost the value, which is not a verdict on the code
                 for s3, _ in r2:
                     for i in range(16):
                         got = s3.mem.get((BLK, (i,)))
                         gid = I2.tid(got) if got is not None else None
                         if gid != want_blk[i]:
                             ok = False
+                            lost = lost or gid is None
                             det = 'output byte %d is %s, SP 800-38A says %s' % (i, ts.show(gid, 3) if gid is not None else show(got) if got else '?', ts.show(want_blk[i], 3))
                             break
                     if want_iv is not None and ok:
@@ -198,6 +203,7 @@ class ModeRules:
                             gid = I2.tid(got) if got is not None else None
                             if gid != want_iv[i]:
                                 ok = False
+                                lost = lost or gid is None
                                 det = 'register byte %d after the step is %s, SP 800-38A says %s' % (i, ts.show(gid, 3) if gid is not None else '?', ts.show(want_iv[i], 3))
                                 break
                     # confinement: nothing of the object but the register and the cipher scratch changes; no pointer to the block is kept
@@ -223,7 +229,7 @@ class ModeRules:
                             det = 'the step\'s result depends on member bytes %s left by the previous step (state other than iv)' % sorted(used & junk)[:3]
                     if not ok:
                         break
-                rec.ob('R10.s', key, ok, '%s:%s' % (f['file'], f['line']),
+                rec.ob('R10.s', key, (None if (not ok and lost) else ok), '%s:%s' % (f['file'], f['line']),
                        'factory(%s,%d) -> %s: one step (block\', iv\') as terms over free block / iv bytes with the block cipher uninterpreted equals SP 800-38A %s %s: %s' % (
                            'enc' if enc else 'dec', typ, cls, NAMES[typ], 'encryption' if enc else 'decryption', 'yes' if ok else 'NO: ' + det))
                 # the block cipher direction and instance used
